@@ -70,6 +70,10 @@ def transforms(sib=False):
                 hs.append(torch.stack([torch.stack([p * (o + 1), p.flip(-1) * (o - 2)], -1) for o in range(6)], 2))
             return [DTCWTInverse(biort=b, qshift=q)((yl2, hs))]
         T['idtcwt/%s' % b] = (inv, 4)
+    # other placements of the orientation and real/imaginary axes that keep batch and channel in front (negative aliases included)
+    if not sib:
+        for (o, ri) in ((-4, -1), (3, 2), (-1, -4), (4, -3)):
+            T['dtcwt/layout(%d,%d)' % (o, ri)] = (lambda x, o=o, ri=ri: flat(DTCWTForward(J=2, o_dim=o, ri_dim=ri)(x)), 4)
     return T
 
 
@@ -78,6 +82,7 @@ def oracle_cases(tier, rng):
     for nm in names:
         for chk in ('zero', 'super', 'slice', 'slice_sparse', 'slice_primed'):
             if chk == 'slice_primed' and (nm.split('/')[0] in ('dtcwt', 'idtcwt') and 'near_sym_a' not in nm): continue
+            if 'layout' in nm and chk in ('zero', 'super', 'slice_primed'): continue
             for rep in range(2 if tier == 'quick' else 5):
                 H, W = [(16, 24), (13, 18), (20, 16), (32, 32), (9, 28)][rep % 5]
                 if nm.startswith(('dtcwt', 'idtcwt', 'swt')):
